@@ -4,6 +4,7 @@ import NxModel.Nex.Errors
 import NxModel.Nex.DateTime
 import NxModel.Nex.StationURL
 import NxModel.Nex.ObjWalk
+import NxModel.Nex.HolderPoly
 import NxModel.DriverUtil
 /-! line-protocol driver for the NEX value models (C15)
 
@@ -19,6 +20,10 @@ type syntax (prefix tokens): u8 … variant | `list T` | `map K V`
   res <code>  -> isError isSuccess mkError mkSuccess ;  res.name <code> ; res.named s<hex> ; errtab.add <code> s<hex> ; errtab.check
   struct.w T|F <n> (<ver> x<hex>)* ;  struct.r T|F <n> <k1..kn> <hex>
   any.w N|s<hex> x<hex> ; any.r <hex> ; holder.null T|F <hex>
+  poly.w <world> | <class index> (<version> x<body>)*   -> ok <hex>                                  (NxModel/Nex/HolderPoly.lean)
+  poly.r <world> | <hex>                                -> ok <class index> (<version> x<body>)* | <resthex>
+     world: T|F (struct header) <n> (<class name s-hex> <index of its base class | -> <bytes its load reads>)*n
+            <m> (<registered name s-hex> <class index>)*m      (the DataHolder.register calls in order)
   seq.w <pid> (| <type> | <value>)*      -> ok <hex> <tell after each write, comma separated | ->     (one StreamOut, several values)
   seq.r <pid> <hex> (| <type>)*          -> ok <value> ; <value> … | <resthex>                        (one StreamIn, several values)
   url.walk <url> (| <op>)*               -> ok <obs> ; <obs> … | <final url>  (one StationURL object, see NxModel/Nex/ObjWalk.lean)
@@ -214,6 +219,52 @@ def showObs : Obs → String
   | .bytes b => "b" ++ hexOut b
   | .err e => "err " ++ e.name
 
+open HolderPoly in
+def parseClasses : Nat → List String → Option (ClassTable × List String)
+  | 0, r => some ([], r)
+  | k + 1, nm :: par :: sz :: r =>
+    (match parseStr nm, (if par = "-" then some none else par.toNat?.map some), sz.toNat? with
+    | some (some nm), some par, some sz =>
+      (parseClasses k r).map (fun (cs, r) => (({ name := nm, parent := par, size := sz } : ClassDef) :: cs, r))
+    | _, _, _ => none)
+  | _, _ => none
+
+open HolderPoly in
+def parseRegs : Nat → List String → Option (Registry × List String)
+  | 0, r => some ([], r)
+  | k + 1, nm :: c :: r =>
+    (match parseStr nm, c.toNat? with
+    | some (some nm), some c => (parseRegs k r).map (fun (rs, r) => ((nm, c) :: rs, r))
+    | _, _ => none)
+  | _, _ => none
+
+open HolderPoly in
+def parseWorld : List String → Option (Bool × ClassTable × Registry)
+  | hdr :: n :: rest =>
+    (match n.toNat? with
+    | some n =>
+      (match parseClasses n rest with
+      | some (cs, m :: rest) =>
+        (match m.toNat? with
+        | some m =>
+          (match parseRegs m rest with
+          | some (rs, []) => some (hdr = "T", cs, rs)
+          | _ => none)
+        | none => none)
+      | _ => none)
+    | none => none)
+  | _ => none
+
+def parseLevels : List String → Option (List (Nat × Bytes))
+  | [] => some []
+  | v :: b :: r =>
+    (match v.toNat?, parseBytes b with
+    | some v, some b => (parseLevels r).map ((v, b) :: ·)
+    | _, _ => none)
+  | _ => none
+
+def showLevels (lv : List (Nat × Bytes)) : String := " ".intercalate (lv.map (fun p => s!"{p.1} {showBytes p.2}"))
+
 def step (tbl : ErrTable) (line : String) : ErrTable × String :=
   let ts := words line
   match ts with
@@ -339,6 +390,22 @@ def step (tbl : ErrTable) (line : String) : ErrTable × String :=
         if n = some "NullData" then some (rNullData (hdr = "T")) else none
       showRes ((rDataHolder reg b).map (fun ((n, _), r) => showStr n ++ " | " ++ hexOut r))
     | none => "bad-op")
+  | "poly.w" :: rest =>
+    let (worldT, objT) := splitBar rest
+    (tbl, match parseWorld worldT, objT with
+    | some (hdr, cs, _), c :: lv =>
+      (match c.toNat?, parseLevels lv with
+      | some c, some lv => showRes ((HolderPoly.wHolder cs hdr ⟨c, lv⟩).map hexOut)
+      | _, _ => "bad-op")
+    | _, _ => "bad-op")
+  | "poly.r" :: rest =>
+    let (worldT, hT) := splitBar rest
+    (tbl, match parseWorld worldT, hT with
+    | some (hdr, cs, rs), [h] =>
+      (match fromHex h with
+      | some b => showRes ((HolderPoly.rHolder cs rs hdr b).map (fun (o, r) => s!"{o.cls} {showLevels o.levels} | {hexOut r}"))
+      | none => "bad-op")
+    | _, _ => "bad-op")
   | _ => (tbl, "bad-op")
 
 def main : IO Unit := runState ([] : ErrTable) step
